@@ -246,6 +246,7 @@ func c06HTTP(r *ev.Result, quick bool) {
 		sets = append(sets, []string{"io", "io", "io"}, []string{"io", "o", "i", "io"})
 	}
 	total := 0
+	before := r.NViolations()
 	for _, kinds := range sets {
 		n := c06HTTPRun(r, kinds, nil)
 		perm := make([]int, n)
@@ -254,8 +255,8 @@ func c06HTTP(r *ev.Result, quick bool) {
 		}
 		var rec func(k int)
 		rec = func(k int) {
-			if r.NViolations() >= 6 {
-				return
+			if r.NViolations() >= before+6 {
+				return /* Enough to report. */
 			}
 			if k == n {
 				c06HTTPRun(r, kinds, append([]int{}, perm...))
